@@ -21,7 +21,9 @@ enum { RD_MAX = 0, RD_NL = 1 };
 /* includes names that are proper prefixes of other names (zone handles are cached by name) */
 const char *const zones[] = {"Europe/Berlin", "America/New_York", "Asia/Gaza", "Australia/Lord_Howe", "Asia/Tokyo",
 			     "Asia/Kathmandu", "Africa/Casablanca", "America/St_Johns", "Pacific/Apia", "UTC",
-			     "EST", "EST5EDT", "MST", "MST7MDT", "NZ", "NZ-CHAT", "Etc/GMT-1", "Etc/GMT-10", "Etc/GMT-14", "GMT", "GMT0"};
+			     "EST", "EST5EDT", "MST", "MST7MDT", "NZ", "NZ-CHAT", "Etc/GMT-1", "Etc/GMT-10", "Etc/GMT-14", "GMT", "GMT0",
+			     /* fixed offsets need no file: what the handle for them is, is the library's business */
+			     "+05:00", "+03:00", "+00:45", "+09:30", "+05:00"};
 
 struct Cfg {
 	const char *tool;
@@ -281,6 +283,8 @@ struct HistEngine : Engine {
 			Op o;
 			o.kind = "rd";
 			o.a = {RD_NL, 0, 0};
+			if (SIM_NL <= 64 && longh && r.chance(1, 2))
+				o.a = {4 /* all that is asked for */, 0, 0};
 			p.sched.push_back(o);
 		}
 		static const int64_t starts[] = {951782399, 1000000000, 946684799, 1330559999, 2147483647, 86399, 1456790399, 4102444799LL};
@@ -433,6 +437,10 @@ struct HistEngine : Engine {
 			Op o;
 			o.kind = "rd";
 			o.a = {RD_NL, 0, 0};
+			/* long histories in the small-window builds: also as fast as the reader asks, so that the
+			 * window fills up in the middle of a read */
+			if (SIM_NL <= 64 && longh && r.chance(1, 2))
+				o.a = {4 /* all that is asked for */, 0, 0};
 			p.sched.push_back(o);
 		}
 		/* the clock: same start everywhere; the N-run sees it jump after every read */
